@@ -63,19 +63,24 @@ impl Scenario for MacScenario {
 
     fn generate(&self, seed: u64, tier: Tier) -> Value {
         let mut r = Rng::sub(seed, if self.tampered { 4_02 } else { 4_01 });
-        let field = r.pick(&["fp31", "fp32", "fp25519", "prf"]);
+        let field = r.pick(&["fp31", "fp32", "fp25519", "prf", "vec16"]);
         let records = r.range(1, if tier == Tier::Quick { 16 } else { 24 });
         let mut knobs = draw_knobs(&mut r);
         // active work = records per MAC batch: small values give several batches incl. a partial last one
         knobs["active"] = json!(r.pick(&[2usize, 4, 8, 16]));
         let est = 1500 + records as u64 * 400;
         let mut p = json!({"field": field, "records": records, "input_seed": r.next_u64() >> 12, "knobs": knobs});
+        // "two_phase": all records are upgraded and multiplied first, then validate_record is called for the records in a
+        // seeded order (so MAC batches become ready out of order), then everything is opened
+        p["drive"] = json!(if !self.tampered && ["fp31", "fp32", "fp25519"].contains(&field) && r.chance(1, 2) { "two_phase" } else { "pipeline" });
+        p["order_seed"] = json!(r.next_u64() >> 12);
         if self.tampered {
             p["corrupt"] = json!(r.below(3));
             p["site_seed"] = json!(r.next_u64() >> 12);
             // "consistent": the corrupt helper adds the same error to a product share it sends AND to the copy of
             // that share it contributes to the opening, so that the two copies agree and only the MAC can catch it
-            p["attack"] = json!(if field != "prf" && r.chance(1, 2) { "consistent" } else { "single" });
+            p["attack"] = json!(if field == "vec16" { r.pick(&["lane_cancel", "lane_cancel", "consistent", "single"]) } else if field != "prf" && r.chance(1, 2) { "consistent" } else { "single" });
+            p["lanes"] = json!([r.below(16), r.below(16)]);
         }
         p["sched"] = SchedSpec::draw(&mut r, est, 3_000_000);
         p
@@ -87,6 +92,7 @@ impl Scenario for MacScenario {
             "fp32" => exec_f::<Fp32BitPrime>(p, explicit, self.tampered, 4),
             "fp25519" => exec_f::<Fp25519>(p, explicit, self.tampered, 32),
             "prf" => exec_prf(p, explicit, self.tampered),
+            "vec16" => exec_vec16(p, explicit, self.tampered),
             _ => RunRes::invalid("mac: field"),
         }
     }
@@ -142,15 +148,18 @@ where
     let knobs = &p["knobs"];
     let (active, read_size, world_seed) = (pu(knobs, "active"), pu(knobs, "read_size"), pu64(knobs, "world_seed"));
     let input_seed = pu64(p, "input_seed");
+    let two_phase = p.get("drive").and_then(Value::as_str) == Some("two_phase");
+    let order: Vec<usize> = Rng::sub(p.get("order_seed").and_then(Value::as_u64).unwrap_or(0), 7).perm(records);
     let (tamper, interceptor) = faults::tamper_many(sites);
     let log: StdArc<StdMutex<BTreeMap<usize, HelperRes>>> = StdArc::new(StdMutex::new(BTreeMap::new()));
     let log2 = StdArc::clone(&log);
     let (xs, ys) = (xs.to_vec(), ys.to_vec());
     let outcome = sim_async(spec, StdArc::new(AtomicBool::new(false)), move || {
-        let (log, xs, ys, interceptor) = (StdArc::clone(&log2), xs.clone(), ys.clone(), interceptor.clone());
+        let (log, xs, ys, interceptor, order) = (StdArc::clone(&log2), xs.clone(), ys.clone(), interceptor.clone(), order.clone());
         async move {
             let world = TestWorld::new_with(&world_config(world_seed, active, read_size, Some(interceptor)));
             let mut rng = StdRng::seed_from_u64(input_seed ^ 0x5a5a);
+            let order = &order;
             let mut inputs: [Vec<(Replicated<F>, Replicated<F>)>; 3] = [Vec::new(), Vec::new(), Vec::new()];
             for (x, y) in zip(xs, ys) {
                 let [x0, x1, x2] = x.share_with(&mut rng);
@@ -166,16 +175,41 @@ where
                     let ctx = ctx.set_total_records(records);
                     let v = ctx.validator::<F>();
                     let m_ctx = v.context();
-                    let r: Result<Vec<Vec<u8>>, Error> = m_ctx
-                        .try_join(zip(repeat(m_ctx.clone()).enumerate(), shares.into_iter()).map(|((i, c), (a, b))| async move {
-                            let rid = RecordId::from(i);
-                            let (a, b) = (a, b).upgrade(c.narrow("upgrade"), rid).await?;
-                            let z = a.multiply(&b, c.narrow("mult"), rid).await?;
-                            c.validate_record(rid).await?;
-                            let opened = reveal(c.narrow("open"), rid, &z).await?;
-                            Ok::<_, Error>(ser(&opened.into_iter().next().unwrap()))
-                        }))
-                        .await;
+                    let r: Result<Vec<Vec<u8>>, Error> = if two_phase {
+                        async {
+                            let zs = m_ctx
+                                .try_join(zip(repeat(m_ctx.clone()).enumerate(), shares.into_iter()).map(|((i, c), (a, b))| async move {
+                                    let rid = RecordId::from(i);
+                                    let (a, b) = (a, b).upgrade(c.narrow("upgrade"), rid).await?;
+                                    a.multiply(&b, c.narrow("mult"), rid).await
+                                }))
+                                .await?;
+                            // every record asks for validation exactly once, in a seeded order, all requests pending together
+                            futures::future::try_join_all(order.iter().map(|&i| {
+                                let c = m_ctx.clone();
+                                async move { c.validate_record(RecordId::from(i)).await }
+                            }))
+                            .await?;
+                            m_ctx
+                                .try_join(zip(repeat(m_ctx.clone()).enumerate(), zs.into_iter()).map(|((i, c), z)| async move {
+                                    let opened = reveal(c.narrow("open"), RecordId::from(i), &z).await?;
+                                    Ok::<_, Error>(ser(&opened.into_iter().next().unwrap()))
+                                }))
+                                .await
+                        }
+                        .await
+                    } else {
+                        m_ctx
+                            .try_join(zip(repeat(m_ctx.clone()).enumerate(), shares.into_iter()).map(|((i, c), (a, b))| async move {
+                                let rid = RecordId::from(i);
+                                let (a, b) = (a, b).upgrade(c.narrow("upgrade"), rid).await?;
+                                let z = a.multiply(&b, c.narrow("mult"), rid).await?;
+                                c.validate_record(rid).await?;
+                                let opened = reveal(c.narrow("open"), rid, &z).await?;
+                                Ok::<_, Error>(ser(&opened.into_iter().next().unwrap()))
+                            }))
+                            .await
+                    };
                     log.lock().unwrap().insert(h, r.map_err(|e| e.to_string()));
                 })
                 .await;
@@ -203,7 +237,7 @@ where
     let ys: Vec<F> = (0..records).map(|i| if i % 6 == 4 { F::ZERO } else { F::draw(&mut rng) }).collect();
     let want: Vec<Vec<u8>> = zip(&xs, &ys).map(|(x, y)| ser(&(*x * *y))).collect();
     let spec = SchedSpec::from_json(&p["sched"], explicit);
-    let shape = format!("mac {field} r{records} a{} t{}", pu(&p["knobs"], "active"), u8::from(tampered));
+    let shape = format!("mac {field} r{records} a{} t{} {}", pu(&p["knobs"], "active"), u8::from(tampered), p.get("drive").and_then(Value::as_str).unwrap_or("pipeline"));
     let honest = run_f::<F>(p, &spec, &xs, &ys, Vec::new());
     if let Some(v) = judge_honest(&honest, &want, &shape) {
         return v;
@@ -212,6 +246,15 @@ where
         let mut res = RunRes::pass(shape, honest.outcome.decisions > 0, Some(honest.outcome));
         res.probe("mac_batches", records.div_ceil(pu(&p["knobs"], "active")) as u64);
         res.probe("partial_last_batch", u64::from(records % pu(&p["knobs"], "active") != 0));
+        if p.get("drive").and_then(Value::as_str) == Some("two_phase") {
+            // batches whose last validation request arrives before that of an earlier batch
+            let (a, order) = (pu(&p["knobs"], "active"), Rng::sub(p.get("order_seed").and_then(Value::as_u64).unwrap_or(0), 7).perm(records));
+            let nb = records.div_ceil(a);
+            let ready_at: Vec<usize> = (0..nb).map(|b| order.iter().rposition(|i| i / a == b).unwrap()).collect();
+            let ooo = (1..nb).filter(|b| (0..*b).any(|e| ready_at[e] > ready_at[*b])).count();
+            res.probe("two_phase_runs", 1);
+            res.probe("batches_ready_out_of_order", ooo as u64);
+        }
         return res;
     }
     let corrupt = pu(p, "corrupt");
@@ -395,4 +438,130 @@ fn exec_prf(p: &Value, explicit: Option<Vec<u32>>, tampered: bool) -> RunRes {
     };
     let bad = run_prf(p, &spec, &xs, key, vec![site.clone()]);
     judge_tampered(&bad, &want, corrupt, &[site], 1, "prf", honest.inv.len(), shape)
+}
+
+// ------------------------------------------------------------------------------------------------
+// vectorised MAC shares: Fp25519 x 16 lanes (the production layout of the pseudonym step)
+// ------------------------------------------------------------------------------------------------
+
+const LANES: usize = 16;
+type MalVec = crate::secret_sharing::replicated::malicious::AdditiveShare<Fp25519, LANES>;
+
+fn run_vec16(p: &Value, spec: &SchedSpec, xs: &[[Fp25519; LANES]], ys: &[[Fp25519; LANES]], sites: Vec<Site>) -> OneRun {
+    let records = pu(p, "records");
+    let knobs = &p["knobs"];
+    let (active, read_size, world_seed) = (pu(knobs, "active"), pu(knobs, "read_size"), pu64(knobs, "world_seed"));
+    let input_seed = pu64(p, "input_seed");
+    let (tamper, interceptor) = faults::tamper_many(sites);
+    let log: StdArc<StdMutex<BTreeMap<usize, HelperRes>>> = StdArc::new(StdMutex::new(BTreeMap::new()));
+    let log2 = StdArc::clone(&log);
+    let (xs, ys) = (xs.to_vec(), ys.to_vec());
+    let outcome = sim_async(spec, StdArc::new(AtomicBool::new(false)), move || {
+        let (log, xs, ys, interceptor) = (StdArc::clone(&log2), xs.clone(), ys.clone(), interceptor.clone());
+        async move {
+            let world = TestWorld::new_with(&world_config(world_seed, active, read_size, Some(interceptor)));
+            let mut rng = StdRng::seed_from_u64(input_seed ^ 0x1616);
+            type In = (Replicated<Fp25519, LANES>, Replicated<Fp25519, LANES>);
+            let mut inputs: [Vec<In>; 3] = [Vec::new(), Vec::new(), Vec::new()];
+            for (x, y) in zip(xs, ys) {
+                let [x0, x1, x2]: [Replicated<Fp25519, LANES>; 3] = x.share_with(&mut rng);
+                let [y0, y1, y2]: [Replicated<Fp25519, LANES>; 3] = y.share_with(&mut rng);
+                inputs[0].push((x0, y0));
+                inputs[1].push((x1, y1));
+                inputs[2].push((x2, y2));
+            }
+            let log = &log;
+            world
+                .malicious(Shared3(inputs), |ctx, shares: Vec<In>| async move {
+                    let h = role_idx(ctx.role());
+                    let ctx = ctx.set_total_records(records);
+                    let v = ctx.validator::<Fp25519>();
+                    let m_ctx = v.context();
+                    let r: Result<Vec<Vec<u8>>, Error> = m_ctx
+                        .try_join(zip(repeat(m_ctx.clone()).enumerate(), shares.into_iter()).map(|((i, c), (a, b))| async move {
+                            let rid = RecordId::from(i);
+                            let a: MalVec = a.upgrade(c.narrow("upgrade_a"), rid).await?;
+                            let b: MalVec = b.upgrade(c.narrow("upgrade_b"), rid).await?;
+                            let z = a.multiply(&b, c.narrow("mult"), rid).await?;
+                            c.validate_record(rid).await?;
+                            let opened = reveal(c.narrow("open"), rid, &z).await?;
+                            Ok::<_, Error>(opened.into_iter().flat_map(|v| ser(&v)).collect::<Vec<u8>>())
+                        }))
+                        .await;
+                    log.lock().unwrap().insert(h, r.map_err(|e| e.to_string()));
+                })
+                .await;
+        }
+    });
+    let t = tamper.log.lock().unwrap();
+    OneRun { outcome, res: log.lock().unwrap().clone(), inv: t.chans.clone(), fired: t.fired.clone() }
+}
+
+fn exec_vec16(p: &Value, explicit: Option<Vec<u32>>, tampered: bool) -> RunRes {
+    use rand::Rng as _;
+    if !valid(p, tampered) {
+        return RunRes::invalid("mac: plan");
+    }
+    let records = pu(p, "records");
+    let mut rng = StdRng::seed_from_u64(pu64(p, "input_seed"));
+    let mut draw = |i: usize| -> [Fp25519; LANES] {
+        std::array::from_fn(|l| if (i + l) % 11 == 3 { Fp25519::ZERO } else if (i + l) % 13 == 5 { Fp25519::ONE } else { rng.r#gen() })
+    };
+    let xs: Vec<[Fp25519; LANES]> = (0..records).map(&mut draw).collect();
+    let ys: Vec<[Fp25519; LANES]> = (0..records).map(&mut draw).collect();
+    let want: Vec<Vec<u8>> = zip(&xs, &ys).map(|(x, y)| (0..LANES).flat_map(|l| ser(&(x[l] * y[l]))).collect()).collect();
+    let spec = SchedSpec::from_json(&p["sched"], explicit);
+    let shape = format!("mac vec16 r{records} a{} t{} {}", pu(&p["knobs"], "active"), u8::from(tampered), p.get("attack").and_then(Value::as_str).unwrap_or("-"));
+    let honest = run_vec16(p, &spec, &xs, &ys, Vec::new());
+    if let Some(v) = judge_honest(&honest, &want, &shape) {
+        return v;
+    }
+    if !tampered {
+        let mut res = RunRes::pass(shape, honest.outcome.decisions > 0, Some(honest.outcome));
+        res.probe("vec16_records", records as u64);
+        return res;
+    }
+    let corrupt = pu(p, "corrupt");
+    let mut sr = Rng::sub(pu64(p, "site_seed"), 0);
+    let attack = p.get("attack").and_then(Value::as_str).unwrap_or("single").to_string();
+    let rec_bytes = LANES * 32;
+    let sites: Vec<Site> = match p.get("site") {
+        Some(s) if !s.is_null() => Site::list_from_json(s),
+        _ if attack != "single" => {
+            let k = sr.below(records);
+            let lanes = pvec(p, "lanes");
+            let (l0, l1) = (lanes.first().copied().unwrap_or(0) % LANES, lanes.get(1).copied().unwrap_or(1) % LANES);
+            let l1 = if attack == "lane_cancel" && l1 == l0 { (l0 + 1) % LANES } else { l1 };
+            let mult = honest.inv.keys().find(|c| c.kind == "mpc" && c.src == corrupt && c.gate.ends_with("/mult")).cloned();
+            let open = mult.as_ref().and_then(|m| {
+                let third = 3 - corrupt - m.dst;
+                honest.inv.keys().find(|c| c.kind == "mpc" && c.src == corrupt && c.dst == third && c.gate.ends_with("/open")).cloned()
+            });
+            match (mult, open) {
+                (Some(m), Some(o)) => {
+                    let mut v = Vec::new();
+                    for chan in [m, o] {
+                        v.push(Site { chan: chan.clone(), chunk: 0, offset: 0, pattern: "addle:32".into(), stream_off: Some(k * rec_bytes + l0 * 32) });
+                        if attack == "lane_cancel" {
+                            // the same error with the opposite sign in another lane of the same message
+                            v.push(Site { chan, chunk: 0, offset: 0, pattern: "suble:32".into(), stream_off: Some(k * rec_bytes + l1 * 32) });
+                        }
+                    }
+                    v
+                }
+                _ => Vec::new(),
+            }
+        }
+        _ => draw_site(&honest.inv, &|k: &ChanKey| k.sender_helper() == corrupt, &mut sr, &["addle:32", "addle:32", "flip:0", "flip:2", "add1"]).into_iter().collect(),
+    };
+    if sites.is_empty() {
+        return RunRes::inconclusive("no_site", "no channel of the corrupt helper".into(), shape, Some(honest.outcome));
+    }
+    let need = sites.len();
+    let bad = run_vec16(p, &spec, &xs, &ys, sites.clone());
+    let mut res = judge_tampered(&bad, &want, corrupt, &sites, need, "vec16", honest.inv.len(), shape);
+    if attack == "lane_cancel" {
+        res.fault("F1_lane_cancelling_attack", u64::from(bad.fired.len() >= need));
+    }
+    res
 }
